@@ -28,6 +28,14 @@ CAP_FUNCS = ["spifconf_find_file", "spifconf_open_file", "spiftool_temp_file", "
 STRICT_FUNCS = {"builtin_dirscan", "builtin_exec", "spifconf_find_file", "spiftool_temp_file"}
 
 
+class DriverCap(Cap):
+    """the two big drivers get a wall-clock budget: what is explored within it is reported, the rest is noted as partial"""
+    time_budget = 75
+
+    def no_inline(self, fn):
+        return ConfCap.no_inline(self, fn)
+
+
 class ConfCap(Cap):
     def no_inline(self, fn):
         # helpers of other units are not interpreted, except the small string/file tools (spiftool_*) that store through a
@@ -65,9 +73,9 @@ def run(tier="quick"):
     # NULL obligations only - a helper's "no such word" answer (NULL) must not reach a libc function that dereferences it; its
     # bounds depend on the caller's line buffer, which the entry contract of a bare char pointer does not describe
     big = [g_ for g_ in (prog.fn("spifconf_parse"),) if g_ is not None]
-    n_b, nund_b, _sb = run_cap(chk, prog, big, rule="B1", noreturn=NORETURN, cap_factory=lambda p: ConfCap(p, noreturn=NORETURN), kinds=kinds_)
+    n_b, nund_b, _sb = run_cap(chk, prog, big, rule="B1", noreturn=NORETURN, cap_factory=lambda p: DriverCap(p, noreturn=NORETURN), kinds=kinds_)
     big2 = [g_ for g_ in (prog.fn("spifconf_parse_line"),) if g_ is not None]
-    n_b2, nund_b2, _sb2 = run_cap(chk, prog, big2, rule="B1", noreturn=NORETURN, cap_factory=lambda p: ConfCap(p, noreturn=NORETURN), kinds={"null"})
+    n_b2, nund_b2, _sb2 = run_cap(chk, prog, big2, rule="B1", noreturn=NORETURN, cap_factory=lambda p: DriverCap(p, noreturn=NORETURN), kinds={"null"})
     n, nund = n + n_b + n_b2, nund + nund_b + nund_b2
     nsp = R.check_spawn(chk, prog, {"builtin_exec": None, "spifconf_parse_line": "preproc"})
     nex = R.check_exec_reachability(chk, prog, u)
